@@ -25,33 +25,6 @@ type Prop struct {
 
 var commonStubs = []string{"sync and sync/atomic (simsync/simatomic: documented semantics, every op a scheduling point)", "goroutine scheduler (seeded)", "clock (testing/synctest fake clock)", "select readiness order and map iteration order (recorded decisions)"}
 
-var props = []*Prop{
-	{
-		ID: "C17", Title: "Starving/DAG mutexes, Counter and Stack waits", Level: "exploration",
-		Subs: []Sub{
-			{Pkg: "locks", Harness: "starving", Weight: 3},
-			{Pkg: "locks", Harness: "dag", Weight: 3},
-			{Pkg: "locks", Harness: "misuse", Weight: 1},
-			{Pkg: "locks", Harness: "counter", Weight: 2},
-			{Pkg: "locks", Harness: "stack", Weight: 2},
-		},
-		QuickS: 25, ThoroughS: 600,
-		Rule:  "each run draws a script (2-4 threads x 1-3 lock/unlock segments on 1-3 entities, read or write, hold lengths; or waiter/updater mixes) and a schedule from one seeded decision stream; distinct = distinct hash of (script, context-switch sequence, event log); non-trivial = at least two recorded decisions",
-		Real:  []string{"runtime/syncutils (StarvingMutex, DAGMutex, Counter, Stack) rewritten mechanically", "ds/shrinkingmap, ds/orderedmap"},
-		Stubs: commonStubs,
-		Assume: []string{"one task executes at a time; context switches only at sync/atomic/channel operations (plain-memory races are invisible)", "bounded scripts: a violation needing more threads/operations than generated is not found"},
-	},
-	{
-		ID: "C16", Title: "WorkerPool conserves tasks and always shuts down", Level: "exploration",
-		Subs: []Sub{
-			{Pkg: "workerpool", Harness: "pool", Weight: 3},
-			{Pkg: "workerpool", Harness: "restart", Weight: 2},
-			{Pkg: "workerpool", Harness: "group", Weight: 2},
-		},
-		QuickS: 30, ThoroughS: 900,
-		Rule:  "each run draws a pool configuration (1-3 workers, cancel-on-shutdown on/off, optional restart cycles, optional group tree), 1-3 submitters with 1-3 tasks each (tasks yield and may submit nested tasks), a Shutdown/ShutdownComplete.Wait caller, waiters, and a schedule; distinct = distinct (configuration, schedule, event log) hash; non-trivial = at least two recorded decisions",
-		Real:  []string{"runtime/workerpool (WorkerPool, Task, Group)", "runtime/syncutils (Counter, Stack)", "ds/orderedmap"},
-		Stubs: commonStubs,
-		Assume: []string{"one task executes at a time; context switches only at sync/atomic/channel/select/go operations", "accepted = the pending counter was raised inside the Submit call (observed through PendingTasksCounter.Subscribe)", "bounded: <=3 submitters x <=3 tasks, <=3 restart cycles"},
-	},
-}
+var props []*Prop
+
+func register(p *Prop) { props = append(props, p) }
